@@ -67,6 +67,7 @@ class G:
         self.typedefs = [["T0", "T1"]]  # stack of visible typedef-name lists
         self.budget = max_nodes
         self.odd_names = True
+        self.used_words = set()
         self.open_tags = [[]]
         self.closed_tags = []
 
@@ -84,8 +85,20 @@ class G:
     # leading underscore, keyword and literal-prefix look-alikes, a very long name
     ODD_NAMES = ["_%s", "$%s", "%s$", "L%s", "u8%s", "U%s", "int%s", "sizeof%s", "_Atomic%s", "if%s", "e%s", "x%sp1", "%s" + "q" * 120, "line%s", "pragma%s", "T0%s", "__%s"]
 
+    # words that are keywords only in other dialects (C23, C++) or only as
+    # macros of a header: ordinary identifiers in C99/C11; each used once
+    NEAR_KEYWORDS = ["alignas", "alignof", "static_assert", "thread_local", "bool", "true", "false", "noreturn", "complex", "imaginary", "atomic",
+                     "nullptr", "constexpr", "typeof", "asm", "_BOOL", "_atomic", "Int", "INT", "defined", "include", "define", "pragma", "line",
+                     "class", "new", "this", "and", "or", "not", "try", "catch", "fortran", "near", "far", "main", "NULL", "va_list", "size_t"]  # fmt: skip
+
     def fresh(self, prefix="v"):
         self.k += 1
+        if self.odd_names and self.c.chance(0.03):
+            left = [w for w in self.NEAR_KEYWORDS if w not in self.used_words]
+            if left:
+                w = self.c.choice(left)
+                self.used_words.add(w)
+                return w
         name = "%s%d" % (prefix, self.k)
         if self.odd_names and self.c.chance(0.06):
             return self.c.choice(self.ODD_NAMES) % name
@@ -199,7 +212,7 @@ def gen_expr(g, d):
     if k == "comma":
         return ("comma", [sub() for _ in range(c.int(2, 3))])
     if k == "cl":
-        return ("cl", gen_typename(g, 1), gen_initlist(g, d - 1))
+        return ("cl", gen_typename(g, 1), gen_initlist(g, d - 1, allow_empty=False))
     if k == "offsetof":
         des = [c.choice(MEMBERS)]
         for _ in range(c.int(0, 2)):
@@ -463,9 +476,13 @@ def gen_typename(g, maxderiv):
     return ("tn", items, deriv)
 
 
-def gen_initlist(g, d):
+def gen_initlist(g, d, allow_empty=True):
     c = g.c
     items = []
+    if allow_empty and c.chance(0.06) and g.on("init.empty_braces"):
+        # '{ }': not C99/C11 (C23 and GNU C); pycparser's grammar has it for
+        # initializers, nested ones too, but not for the list of a compound literal
+        return ("il", [], False)
     for _ in range(c.int(1, 3)):
         des = []
         if c.chance(0.35):
